@@ -224,12 +224,12 @@ impl Version {
         match self {
             Version::V1 => writer.write_all(
                 &u16::try_from(header_len)
-                    .expect("cannot convert npy header_len to u16")
+                    .map_err(|_| header_too_long_error(header_len))?
                     .to_le_bytes(),
             ),
             Version::V2 | Version::V3 => writer.write_all(
                 &u32::try_from(header_len)
-                    .expect("cannot convert npy header_len to u16")
+                    .map_err(|_| header_too_long_error(header_len))?
                     .to_le_bytes(),
             ),
         }
@@ -242,6 +242,13 @@ impl Version {
             Version::V2 | Version::V3 => 4,
         }
     }
+}
+
+fn header_too_long_error(header_len: usize) -> io::Error {
+    io::Error::new(
+        io::ErrorKind::InvalidInput,
+        format!("npy header of {header_len} bytes is too long for the npy version"),
+    )
 }
 
 /// A npy type descriptor.
